@@ -1,4 +1,5 @@
 import GqlProofs.ValSpec.ScopeSound
+import GqlProofs.Validate.OpEvents
 /-
   The walker's `used` set (the variable definitions that got `Used = true`) in terms of events:
   a name is in `used` after a walk iff it was there before or the walk fired a `value` event for a
@@ -323,10 +324,11 @@ theorem walkVarDefsA_not_value (s : SV) (cur : Option OperationDef) (ws : WS) :
     · exact walkVarDefsA_not_value s cur ws rest e he _ _ _
 
 /-- the `used` list the `operation` event of `op` is computed from: exactly the names of the
-    defined variables for which a `value` event was fired during the walk of `op` -/
+    defined variables for which a `value` event was fired during the walk of `op`; the walk has no
+    other `operation` event -/
 theorem walkOperation_used (s : SV) (d : QueryDoc) (fuel : Nat) (op : OperationDef) (l : Links)
     (r : Links × List Event) (h : walkOperation s d fuel op l = some r) :
-    ∃ used pre, r.2 = pre ++ [{ cur := some op, links := r.1, p := .operation op (usedFlags used op.vars []) }] ∧
+    ∃ used, (∀ e ∈ r.2, ∀ op' flags, e.p = .operation op' flags → op' = op ∧ flags = usedFlags used op.vars []) ∧
       ∀ x, x ∈ used ↔ ∃ e ∈ r.2, VarUseEv (some op) x e := by
   unfold walkOperation at h
   simp only at h
@@ -335,7 +337,23 @@ theorem walkOperation_used (s : SV) (d : QueryDoc) (fuel : Nat) (op : OperationD
   · rename_i r4 h4
     injection h with h
     subst h
-    refine ⟨r4.1.used, _, rfl, ?_⟩
+    refine ⟨r4.1.used, ?_, ?_⟩
+    · have hb := walkLevel_noOps s d (some op) fuel _ _ _ r4 h4
+      intro e he op' flags hp
+      rcases List.mem_append.1 he with he | he
+      · have hno : noOps (walkVarDefsA s (some op) { visited := [], links := l, used := [] } op.vars ++
+            (walkVarDefsB s (some op) op.vars { visited := [], links := l, used := [] }).2 ++
+            (walkDirectives s (some op) (opRoot s op.op).1 op.dirs (opRoot s op.op).2
+              (walkVarDefsB s (some op) op.vars { visited := [], links := l, used := [] }).1).2 ++ r4.2) = true := by
+          simp only [noOps_append, walkVarDefsA_noOps, walkVarDefsB_noOps, walkDirectives_noOps, hb]
+          rfl
+        have := List.all_eq_true.1 hno e he
+        simp [hp, Payload.isOperation] at this
+      · simp only [List.mem_singleton] at he
+        subst he
+        simp only at hp
+        injection hp with h1 h2
+        exact ⟨h1.symm, h2.symm⟩
     have h2 := walkVarDefsB_used s (some op) op.vars { visited := [], links := l, used := [] }
     have h3 := walkDirectives_used s (some op) (opRoot s op.op).1 op.dirs (opRoot s op.op).2
       (walkVarDefsB s (some op) op.vars { visited := [], links := l, used := [] }).1
